@@ -379,6 +379,23 @@ def _run_vacuum(case):
     out.append(Res("C04/vacuum/reversible", err <= RTOL_VAC,
                    f"propagate({dz}) then propagate({-dz}) ({'same' if case['reuse'] else 'fresh'} propagator, order "
                    f"{case['order']}): max|psi''-psi|/max|psi|={err:.3e} (tol {RTOL_VAC})", nt))
+    if case["reuse"]:
+        # the same propagator object applied to a *different* wave of the same shape (what an eager run over several
+        # frozen-phonon configurations, or a caller re-using a propagator, does): clause (b) holds for that wave too, and
+        # the result is the one a fresh propagator gives
+        arr_b, nm_b = _bandlimited(lead + gpts, samp, case["frac"], rng_for(case["seed"], "vacuum-second"))
+        arr_b = (3.0 * arr_b).astype(np.complex64)
+        wb = abtem.Waves(arr_b.copy(), energy=energy, sampling=samp, ensemble_axes_metadata=axes_md, metadata=md)
+        wb1 = p.propagate(wb, dz, in_place=case["in_place"], order=case["order"])
+        ab1 = np.array(wb1.array)
+        ntb = nm_b > 0 and bool(np.any(arr_b != 0))
+        dvb = float(np.abs(_intensity(ab1) / _intensity(arr_b) - 1).max()) if ntb else 0.0
+        wf = abtem.Waves(arr_b.copy(), energy=energy, sampling=samp, ensemble_axes_metadata=axes_md, metadata=md)
+        af = np.asarray(FresnelPropagator().propagate(wf, dz, in_place=False, order=case["order"]).array)
+        errb = float(np.abs(ab1.astype(np.complex128) - af.astype(np.complex128)).max()) / (float(np.abs(arr_b).max()) or 1.0)
+        out.append(Res("C04/vacuum/reused-propagator-second-wave", dvb <= RTOL_VAC and errb <= RTOL_VAC,
+                       f"second wave through the already used propagator (in_place={case['in_place']}): "
+                       f"max|I_after/I_before-1|={dvb:.3e}, max|psi_reused-psi_fresh|/max|psi|={errb:.3e} (tol {RTOL_VAC})", ntb))
     return out
 
 
